@@ -3,6 +3,7 @@
 -/
 import ErgoProofs.Lemmas.ConcReach
 import ErgoProofs.Lemmas.DiskInv
+import ErgoProofs.Lemmas.DiskConc
 namespace Ergo
 
 /-- the cycle test is exact: `hasCycle g f t` ⇔ adding f→t would close a cycle (f = t or t ⇝ f) -/
@@ -76,5 +77,18 @@ theorem C07_inv_holds_of_the_bytes_on_disk {limit : Nat} {log : List Event} {f :
     ∃ g, Storage.readEvents Codec.classifyLine limit f = .ok log ∧ replay log = .ok g ∧ Inv07 g := by
   obtain ⟨g, hf, hr, hinv⟩ := Codec.disk_allInv h
   exact ⟨g, hf, hr, hinv.i07⟩
+
+/-- … and under concurrency **on the bytes**: ergo's own lock sections as writers of the byte-level process system, lock-free readers, any
+    schedule, deaths between system calls — the file under the log's name reads back (real line format) to a log whose graph is acyclic,
+    same-kind and between live items -/
+theorem C07_inv_concurrent_on_disk (f : Storage.Bytes) (log0 : List Event) (envs : List (Env × Sec)) (nr limit : Nat)
+    (ets : Event → String) (hf : Storage.readEvents Codec.classifyLine limit f = .ok log0) (hfw : Codec.AllWf log0) (h0 : SecReach log0)
+    (hok : ∀ es ∈ envs, SecOK es.1 es.2) (hT : ∀ es ∈ envs, Codec.EnvT es.1)
+    (s : ProcB.BSys) (h : ProcB.BReachableNT (ProcB.BSys.init f (envs.map fun (es : Env × Sec) => secDecide es.1 es.2) nr limit ets) s)
+    (hclock : ∀ (i p : Nat) (snap : List Event) (w : Write) (g : Graph), s.commits[i]? = some (p, snap, w) → replayRaw snap = .ok g →
+               ∀ es : Env × Sec, envs[p]? = some es → EnvOK g es.1) :
+    ∃ L g, Storage.readEvents Codec.classifyLine limit s.file = .ok L ∧ replayRaw L = .ok g ∧ Inv07 g := by
+  obtain ⟨L, g, hl, hg, hinv⟩ := ProcB.conc_disk_allInv f log0 envs nr limit ets hf hfw h0 hok hT s h hclock
+  exact ⟨L, g, hl, hg, hinv.i07⟩
 
 end Ergo
